@@ -297,10 +297,13 @@ def near_duplicate(rf, rnd):
 CACHE_BAIT = ['contains("WHOLEFDS  MKT")', 'contains("WHOLEFDS MKT")', 'regex("^ATM\\\\s+\\\\d")', 'regex("^ATM\\\\s+\\\\D")',
               'split(description, "A", 0) == "x"', 'split(description, "a", 0) == "x"', 'contains("net")', 'contains("net") ',
               'regex("\\\\bEATS\\\\b")', 'regex("\\\\BEATS\\\\B")', 'uppercase(description) == "Netflix"', 'uppercase(description) == "NETFLIX"',
-              'extract("(\\\\S+)")', 'extract("(\\\\s+)")', 'description.replace("a", "b")', 'description.replace("A", "b")']
+              'extract("(\\\\S+)")', 'extract("(\\\\s+)")', 'description.replace("a", "b")', 'description.replace("A", "b")',
+              # the same fuzzy pattern under a lenient and a strict threshold (the lenient one may be asked first)
+              'fuzzy("STARBUCKS", 0.75)', 'fuzzy("STARBUCKS", 0.95)', 'fuzzy("NETFLIX", 0.7)', 'fuzzy("NETFLIX", 0.99)']
 VIEW_EXPRS = ['months >= 2', 'total > 100', 'cv < 0.5', 'sum(payments) > 50', 'max(sum(by("month"))) > 60', 'category == "Food"',
               '"a" in tags', 'count(by("month")) == months', 'total > 100 ', 'CATEGORY == "food"']
-DESCS_EXTRA = ['WHOLEFDS  MKT 10234', 'WHOLEFDS MKT 10234', 'ATM 00123 WITHDRAWAL', 'ATM FEE', 'PAYMENT THANK YOU', 'PAYMENTUS CORP']
+DESCS_EXTRA = ['WHOLEFDS  MKT 10234', 'WHOLEFDS MKT 10234', 'ATM 00123 WITHDRAWAL', 'ATM FEE', 'PAYMENT THANK YOU', 'PAYMENTUS CORP',
+               'SQ *STARBUKS COFFEE - STARBUCKS RESERVE 12', 'NETFLX.COM NETFLIX GIFT']
 
 
 ROWS7 = dict(world.ROWS,
@@ -391,13 +394,18 @@ def make_pool(rnd, tmp, k):
     for name, rf in (('A', a), ('B', b), ('C', c)):
         files[name] = {'path': O.write(os.path.join(d, name + '.rules'), R.render(rf)), 'kind': 'rules', 'text': R.render(rf)}
     for name in ('D', 'E'):
-        files[name] = {'path': O.write(os.path.join(d, name + '.csv'), R.render_csv(R.gen_csv_rules(rnd), rnd)), 'kind': 'csv'}
+        # (each legacy file also holds a row limited to the last N days: its window is computed from TODAY each time it is evaluated; nothing is written back)
+        files[name] = {'path': O.write(os.path.join(d, name + '.csv'), R.render_csv(R.gen_csv_rules(rnd), rnd) +
+                                       'RELATIVE[date:last%ddays],Recent Thing,Recent,Window,\n' % rnd.choice([30, 7, 90])), 'kind': 'csv'}
     # a legacy CSV rule file with a stray quote: everything after it is one enormous cell (beyond what the csv module accepts by default)
     huge = 'Pattern,Merchant,Category,Subcategory\nNETFLIX,Netflix,Subs,Video\nBROKEN,"Stray quote,Cat,Sub\n' + ''.join('P%d,M%d,Cat,Sub\n' % (i, i) for i in range(9000))
     pool_huge = O.write(os.path.join(d, 'H.csv'), huge)
     files['X'] = {'path': O.write(os.path.join(d, 'X.rules'), R.render(c) + '\n[Broken]\ncategory: NoMatchLine\n'), 'kind': 'corrupt'}
     files['N'] = {'path': None, 'kind': 'none'}
     txns = world.pool(rnd, 24, with_fields=False) + [world.txn(rnd, desc=x) for x in DESCS_EXTRA]
+    from datetime import date as _date, timedelta as _td
+    for days in (3, 20, 200):
+        txns.append(dict(world.txn(rnd, desc='RELATIVE SHOP %d' % days), date=_date.today() - _td(days=days), amount=12.0))
     for t in rnd.sample(txns, 4):
         t['field'] = None                  # a source without custom columns: field.* cannot be evaluated for these
     for t in txns:
